@@ -1075,6 +1075,10 @@ def _process_add_event_tick(
             # for its step to re-run; it must not capture further events.
             if wait_condition.resolved_event is not None or wait_condition.timed_out:
                 continue
+            # Requirements are not serialized: after a resume the waiter must not
+            # match anything until its step has re-registered them.
+            if wait_condition.has_requirements and not wait_condition.requirements:
+                continue
             # A targeted event (explicit step=..., or an internal retry) is only
             # for the addressed step.
             if tick.step_name is not None and tick.step_name != step_name:
